@@ -31,6 +31,13 @@ def main():
     except Exception as e:  # machinery failure = broken obligation, never silent
         import traceback
         R.broken.append('check crashed: %s\n%s' % (e, traceback.format_exc()[-1500:]))
+    if any(v[1].get('input_found') for v in R.violations):
+        # a concrete failing input was found: it is the replay; the broken proof obligations are recorded inside it
+        proofs = [b for b in R.broken if b.startswith('Coq proof obligation failed')]
+        R.broken = [b for b in R.broken if b not in proofs]
+        for v in R.violations:
+            if v[1].get('input_found') and proofs:
+                v[1]['broken_obligations'] = proofs
     common.report_broken(R)
     sys.exit(R.finish())
 
